@@ -149,6 +149,33 @@ def st_point_kw(draw, cm, forms=ALL_FORMS, dyadic=False, reps="cow",
     return kw
 
 
+EDGE_TZ_EAST = [(1, 0), (14, 0), (5, 30), (0, 30), (0, 1), (23, 59), (99, 59)]
+
+
+@st.composite
+def st_edge_point_kw(draw, cm, forms=INT_FORMS, dyadic=False, reps="cow",
+                     quarter_tz=False):
+    """A full point within an hour of midnight on the first / last day of a
+    month (January, February, March and December favoured, so year ends and
+    leap days), written in an offset that puts its UTC date on the other side
+    of that edge: first day at 00:xx east of Greenwich, last day at 23:xx
+    west of it."""
+    y = draw(st.sampled_from(BOUNDARY_YEARS))
+    mo = draw(st.sampled_from([1, 2, 2, 3, 3, 12, 12, draw(st.integers(1, 12))]))
+    last = draw(st.booleans())
+    dn = R.dn_from_cal(cm, y, mo, R.mlens(cm, y)[mo - 1] if last else 1)
+    east = [(1, 0), (14, 0), (5, 30), (0, 30), (5, 45)] if quarter_tz \
+        else EDGE_TZ_EAST
+    tzh, tzm = draw(st.sampled_from(east))
+    if last:
+        tzh, tzm = -tzh, -tzm
+    kw = draw(st_point_kw(cm, forms=[f for f in forms if f != "24"] or forms,
+                          dyadic=dyadic, reps=reps, dn=dn, tz=(tzh, tzm)))
+    if kw.get("hour_of_day") != 24:
+        kw["hour_of_day"] = 23 if last else 0
+    return kw
+
+
 def respell(draw, cm, instant_s, reps="cow", tz=None, allow24=True,
             decimal=False):
     """Kwargs of another spelling of the whole-second instant ``instant_s``.
